@@ -25,6 +25,7 @@ def run(ctx):
     ctx.guard(lexrules.endpos_rule, ctx, 'C13-ENDPOS', CLS, floor=30)
     ctx.guard(lexrules.lineno_rule, ctx, 'C13-LINENO', CLS, floor=30)
     ctx.guard(track, ctx)
+    ctx.guard(converters, ctx)
     ctx.assume('ply.yacc (LALR, linear time) and ply.lex (one master regex per input position) behave as documented; '
                'yacc tracking=1 propagates lexpos/endlexpos/lineno of the first/last symbol to non-terminals')
     ctx.assume('positions of nodes built by empty productions are not decided')
@@ -102,6 +103,111 @@ def total(ctx):
     r.check(any(isinstance(n, ast.Call) and call_attr(n) == 'text_input' for n in ast.walk(pf)),
             'parse() delegates to OALParser.text_input', pf, construct='bridgepoint.oal:parse', key='delegate',
             msg='parse() no longer calls text_input')
+
+
+PARTIAL_CONVERTERS = {'int', 'float', 'complex', 'chr', 'ord', 'eval', 'uuid.UUID', 'UUID', 'ast.literal_eval', 'literal_eval', 'json.loads',
+                      'datetime.strptime', 'datetime.datetime.strptime', 'Decimal', 'decimal.Decimal', 'Fraction', 'fractions.Fraction'}
+PARTIAL_METHODS = {'index', 'rindex'}
+
+
+def _partial_calls(fn):
+    '''calls in fn (nested defs included) that can raise a built-in error for some text and are not inside a try that catches it'''
+    out = []
+    for n in ast.walk(fn):
+        if not isinstance(n, ast.Call):
+            continue
+        d = dotted(n.func)
+        hit = None
+        if d in PARTIAL_CONVERTERS and n.args and not all(isinstance(a, ast.Constant) for a in n.args):
+            hit = d
+        elif isinstance(n.func, ast.Attribute) and n.func.attr in PARTIAL_METHODS and n.args and \
+                not isinstance(n.func.value, ast.Constant):
+            hit = '.' + n.func.attr
+        if hit is None:
+            continue
+        cur, guarded = n, False
+        while getattr(cur, '_parent', None) is not None and cur is not fn:
+            par = cur._parent
+            if isinstance(par, ast.Try) and cur in par.body and par.handlers:
+                guarded = True
+            cur = par
+        if not guarded:
+            out.append((n, hit))
+    return out
+
+
+def converters(ctx):
+    '''totality: nothing that runs while a text is parsed (token functions, grammar actions, the position wrapper, Node constructors and what
+    they call inside oal.py) applies a partial converter to lexeme text outside a try: the token regexes admit spellings (1.5f, 2.L) the
+    converters of Python reject, and the built-in error would escape instead of the parse exception'''
+    repo = ctx.repo
+    r = ctx.rule('C13-CONVERT', 'no partial converter (int, float, ...) is applied to token text while parsing', floor=150,
+                 oracle='property statement: parsing returns a tree or raises the parse exception')
+    mod = repo.module('bridgepoint.oal')
+    classes = {c.name: c for c in repo.classes('bridgepoint.oal')}
+    funcs = {n.name: n for n in mod.tree.body if isinstance(n, ast.FunctionDef)}
+    parser = repo.cls(CLS)
+    work = []
+    for m in parser.body:
+        if isinstance(m, ast.FunctionDef) and (m.name.startswith(('p_', 't_')) or m.name in ('text_input', '__init__')):
+            work.append((CLS + '.' + m.name, m, parser))
+    for name in ('parse', 'track_production'):
+        if name in funcs:
+            work.append(('bridgepoint.oal:' + name, funcs[name], None))
+    seen = set()
+
+    def init_of(c):
+        cur = c
+        hops = 0
+        while cur is not None and hops < 8:
+            for m in cur.body:
+                if isinstance(m, ast.FunctionDef) and m.name == '__init__':
+                    return cur, m
+            nxt = None
+            for b in cur.bases:
+                if dotted(b) in classes:
+                    nxt = classes[dotted(b)]
+                    break
+            cur = nxt
+            hops += 1
+        return None, None
+    n_fn = 0
+    while work:
+        q, fn, cls = work.pop()
+        if q in seen:
+            continue
+        seen.add(q)
+        n_fn += 1
+        bad = _partial_calls(fn)
+        r.check(not bad, '%s applies no unguarded partial converter' % q.split(':')[-1], bad[0][0] if bad else fn, construct=q, key='convert',
+                msg='%s applies %s to `%s` while the text is being parsed: for lexemes the token regex accepts but the converter rejects (e.g. a real '
+                    'literal with an f/L suffix) a built-in ValueError escapes instead of ParseException'
+                    % (q, bad[0][1] if bad else '', src(bad[0][0].args[0])[:40] if bad and bad[0][0].args else ''))
+        for c in ast.walk(fn):
+            if not isinstance(c, ast.Call):
+                continue
+            d = dotted(c.func)
+            if d in classes:
+                oc, init = init_of(classes[d])
+                if init is not None:
+                    work.append(('bridgepoint.oal:%s.__init__' % oc.name, init, oc))
+            elif d in funcs:
+                work.append(('bridgepoint.oal:' + d, funcs[d], None))
+            elif isinstance(c.func, ast.Attribute) and isinstance(c.func.value, ast.Name) and c.func.value.id == 'self' and cls is not None:
+                for m in cls.body:
+                    if isinstance(m, ast.FunctionDef) and m.name == c.func.attr:
+                        work.append(('bridgepoint.oal:%s.%s' % (cls.name, m.name), m, cls))
+            elif isinstance(c.func, ast.Attribute) and c.func.attr == '__init__' and dotted(c.func.value) in classes:
+                oc, init = init_of(classes[dotted(c.func.value)])
+                if init is not None:
+                    work.append(('bridgepoint.oal:%s.__init__' % oc.name, init, oc))
+    # the detector must recognise the form it forbids (the expected count on the tree is zero)
+    probe = ast.parse('def __init__(self, value):\n    self.value = str(float(value))\n').body[0]
+    for x in ast.walk(probe):
+        for ch in ast.iter_child_nodes(x):
+            ch._parent = x
+    r.check(len(_partial_calls(probe)) == 1, 'detector self-test: float(<text>) in a constructor is recognised', fn, construct='C13-CONVERT:probe',
+            key='probe', msg='the converter detector no longer recognises its positive example')
 
 
 def _none_guard(r, fn, qual):
